@@ -182,7 +182,7 @@ class Job:
     def __init__(self, name, prop, tus, harness, enforce=None, replace=(), defines=(), tu_defines=(),
                  entry='harness', unwind=8, kind='proof', bound=None, canaries=(), checks=(),
                  extra_src=(), timeout=300, mem_gb=8, rfp=False, replay=None, function_label=None,
-                 loop_contracts=False, solver=(), arbiter=None, include_tus=None, loops=None, unwindset=(), nondet_static=False, object_bits=None, assumptions=(),
+                 loop_contracts=False, solver=(), arbiter=None, include_tus=None, loops=None, unwindset=(), nondet_static=False, object_bits=10, assumptions=(),
                  no_default=()):
         self.__dict__.update(locals())
         del self.__dict__['self']
